@@ -45,6 +45,10 @@ type Case struct {
 	Prev *Prev `json:"prev,omitempty"`
 
 	rot map[string]string // kind -> path of the rotating file (set by Check when Prev is given)
+	// Blank: "cert" / "ca": the Certificate / CA path option (otherwise unset in the case) is set to a string of white
+	// space (an environment variable with a trailing line break and nothing else): a path like any other that cannot be
+	// read, never "not set". (r9)
+	Blank string `json:"blank,omitempty"`
 }
 
 // Prev is what the three file paths held during the earlier call ("" : the slot was not set in that call).
@@ -60,9 +64,9 @@ var (
 	loadedCerts = []string{"", "rsa", "ec"}
 	loadedKeys  = []string{"", "rsa", "ec", "ed25519", "rsa2", "ec2"}
 	caFiles     = []string{"", "ca", "ca2", "missing", "garbage", "bundle", "bigbundle"} // bundle: one file holding ca and ca2; bigbundle: a trust bundle of more than 64 KiB with ca at its end
-	loadedCAs   = []string{"", "ca", "ca2"}
-	pools       = []string{"", "ca", "ca2", "empty", "caold"}                  // caold: an authority with the subject of ca and another key (a root that was re-keyed)
-	serverNames = []string{"", "server.test", "other.test", "10.1.2.3", "::1"} // a server name may be an IP literal
+	loadedCAs   = []string{"", "ca", "ca2", "pinned"}                                    // pinned: a self-signed end-entity certificate (not a CA) used as trust anchor (r9)
+	pools       = []string{"", "ca", "ca2", "empty", "caold"}                            // caold: an authority with the subject of ca and another key (a root that was re-keyed)
+	serverNames = []string{"", "server.test", "other.test", "10.1.2.3", "::1"}           // a server name may be an IP literal
 	callbacks   = []string{"", "accept", "reject"}
 	servers     = []string{"good", "rogue", "tls11"}
 )
@@ -154,6 +158,12 @@ func (c Case) instantiate(m *material) *live {
 		o.LoadedKey = m.keys[c.LoadedKey]
 	}
 	o.CA = c.slotPath(m, "ca", c.CAFile)
+	if c.Blank == "cert" && c.CertFile == "" {
+		o.Certificate = " \t\n"
+	}
+	if c.Blank == "ca" && c.CAFile == "" {
+		o.CA = " \n"
+	}
 	if c.LoadedCA != "" {
 		o.LoadedCA = m.cas[c.LoadedCA]
 	}
@@ -199,6 +209,12 @@ type expectation struct {
 
 func (c Case) expect() expectation {
 	var e expectation
+	if c.Blank == "cert" && c.CertFile == "" {
+		c.CertFile = "missing" // judged like a path at which nothing can be read
+	}
+	if c.Blank == "ca" && c.CAFile == "" {
+		c.CAFile = "missing"
+	}
 	// client identity. The documentation decides which slot counts when both are filled (the file wins).
 	switch {
 	case c.CertFile != "":
